@@ -15,6 +15,7 @@ Streams
                   with jordan_wigner / bravyi_kitaev for the JW / BK codes.
 """
 import copy
+import json
 import itertools
 
 import numpy
@@ -26,12 +27,14 @@ ONE = 'one'
 OPEN_STATEMENTS = [
     'weight_two_segment_code valid on its whole domain: FALSE on the current tree (known finding C09-w2seg-decoder); '
     'proved on 13 of the 15 vectors (weight_two_segment_code_valid_partial)',
-    'binary_code_transform_sound is proved for one term of the Hamiltonian (any product of ladder operators, induction over '
-    'the reversed term: binary_code_transform_term_sound + bct_hypotheses_from_validity + update_operator_sound), for the '
-    'tolerance-free Model; not proved: the summation over the terms of the Hamiltonian with compress(), the identification of '
-    'the flipped qubit state with the encoding of the image (linearity of A v mod 2), the regime where __isub__ / += drop a '
-    'non-zero coefficient below 1e-8, and bct_jw_eq_jw / bct_bk_eq_bk term for term (covered by the transform stream: Model '
-    'correspondence + Spec oracle on every encoded domain state + term-for-term comparison with jordan_wigner / bravyi_kitaev)',
+    'binary_code_transform_sound is proved for the tolerance-free Model (binary_code_transform_sound: for a code valid on a set '
+    'of occupation vectors and a Hamiltonian whose terms map that set to itself, <e(u)| R |e(v)> = <u| h |v>; pieces: '
+    'binary_code_transform_term_sound, bct_hypotheses_from_validity, update_operator_sound, encoding_identity, '
+    'binary_code_transform_term_encoded, binary_code_transform_sum); not proved: the structural hypotheses (decoder components '
+    'are polynomials without empty monomials) for the built-in constructors in general, the regime where __isub__ / += / '
+    'compress() drop a non-zero coefficient below 1e-8, and bct_jw_eq_jw / bct_bk_eq_bk term for term (covered by the transform '
+    'stream: Model correspondence + Spec oracle on every encoded domain state + term-for-term comparison with jordan_wigner / '
+    'bravyi_kitaev)',
     'Shaped for the built-in constructors other than through init_shaped: covered by the codes stream only (both constructors '
     'of BinaryPolynomial are proved: string_constructor_sound, tuple_constructor_sound)',
 ]
@@ -1473,6 +1476,260 @@ def check_hardening(ctx, stream):
         h_types(stream, 'binary_code_transform', plain, variants)
 
 
+# ------------------------------------------------------------------ histories: state shared across calls
+
+CODE_ATTRS = {'encoder', 'decoder', 'n_qubits', 'n_modes'}
+
+
+def check_history(ctx, stream):
+    """(S) across calls: transform with a code, derive a related code from it (concatenation, appending,
+    repetition, in-place forms, copies, attribute replacement), transform with the derived code: the result
+    must equal the transform with an independently built equal code (term for term) and satisfy the Spec
+    action oracle; the observable state of code / polynomial objects has exactly the documented attributes
+    and is not changed by the transform and its helpers."""
+    of = ctx.of
+    from openfermion.transforms.opconversions import binary_codes as bc
+    from openfermion.transforms.opconversions.binary_code_transform import (binary_code_transform, extractor, dissolve,
+                                                                             make_parity_list)
+    BP, FO = of.BinaryPolynomial, of.FermionOperator
+    rng = rng_for(ctx.seed, 'c09-history')
+    I64 = numpy.int64
+    # (expression of the base code c, expressions of partners e with e.n_modes == c.n_qubits and of same-size codes)
+    bases = [(['jw', 4], [['parity', 4], ['bk', 4], ['interleaved', 4], ['checksum', 4, False]], [['bk', 4], ['parity', 4]]),
+             (['bk', 4], [['parity', 4], ['jw', 4], ['interleaved', 4]], [['parity', 4], ['jw', 4]]),
+             (['parity', 3], [['bk', 3], ['jw', 3], ['w1seg']], [['bk', 3], ['jw', 3]]),
+             (['checksum', 4, True], [['jw', 3], ['bk', 3], ['parity', 3]], [['checksum', 4, False]]),
+             (['interleaved', 4], [['add', ['jw', 2], ['parity', 2]], ['bk', 4]], [['jw', 4]]),
+             (['w1seg'], [['jw', 2], ['parity', 2], ['bk', 2]], [])]
+    if ctx.tier == 'thorough' or ctx.drift:
+        bases += [(['jw', 5], [['w2seg'], ['bk', 5], ['checksum', 5, True]], [['parity', 5]]),
+                  (['add', ['jw', 2], ['w1seg']], [['bk', 4], ['parity', 4]], [])]
+
+    def derive(kind, c, e, same):
+        """-> derived code object (may mutate c, as the caller's program would)"""
+        if kind == 'concat':
+            return c * e
+        if kind == 'iconcat':
+            c *= e
+            return c
+        if kind == 'add':
+            return c + e
+        if kind == 'radd':
+            return e + c
+        if kind == 'iadd':
+            c += e
+            return c
+        if kind == 'mul2':
+            return 2 * c
+        if kind == 'mul2np':
+            return c * I64(2)
+        if kind == 'imul2':
+            c *= 2
+            return c
+        if kind == 'deepcopy':
+            return copy.deepcopy(c)
+        if kind == 'copy':
+            return copy.copy(c)
+        if kind == 'concat-concat':
+            return (c * e) * bc.jordan_wigner_code(int(e.n_qubits))
+        if kind == 'replace':
+            # the caller replaces encoder and decoder by those of another code of the same size
+            c.encoder, c.decoder = same.encoder, list(same.decoder)
+            c.n_qubits, c.n_modes = same.n_qubits, same.n_modes
+            return c
+        if kind == 'decoder-edit':
+            # the caller edits one decoder component in place (a code with the same sizes, other decoder)
+            c.decoder[0] += c.decoder[-1]
+            return c
+        raise AssertionError(kind)
+
+    def ops_for(inf):
+        out = []
+        for _ in range(3):
+            f = rand_fermion_op(rng, inf)
+            if f:
+                out.append(f)
+        m = inf.nm - 1
+        out.append({((m, 1), (0, 0)): 1.0, ((0, 1), (m, 0)): 1.0})
+        out.append({((min(2, m), 1),): 1.0})
+        return out
+
+    def build_op(f):
+        H = FO()
+        for t, c in f.items():
+            H += FO(t, c)
+        return H
+
+    oracle = []
+    for ce, partners, sames in bases:
+        cinf = info(of, ce)
+        prior_ops = ops_for(cinf)[:2]
+        for kind in ('concat', 'iconcat', 'add', 'radd', 'iadd', 'mul2', 'mul2np', 'imul2', 'deepcopy', 'copy',
+                     'concat-concat', 'replace', 'decoder-edit'):
+            if kind == 'replace' and not sames:
+                continue
+            plist = partners if kind in ('concat', 'iconcat', 'add', 'radd', 'iadd', 'concat-concat') else [None]
+            for ee in plist:
+                se = rng.choice(sames) if sames else None
+                for prior in ('none', 'transform', 'parity-list', 'extractor', 'transform-twice'):
+                    case = {'check': 'history', 'code': ce, 'derivation': kind, 'partner': ee, 'same_size_code': se,
+                            'prior_use': prior}
+                    stream.case(case)
+                    stream.count('history:' + kind)
+                    stream.count('prior:' + prior)
+                    try:
+                        def make(with_history):
+                            c = build_impl(of, ce)
+                            e = build_impl(of, ee) if ee is not None else None
+                            sm = build_impl(of, se) if se is not None else None
+                            if with_history:
+                                if prior in ('transform', 'transform-twice'):
+                                    binary_code_transform(build_op(prior_ops[0]), c)
+                                    if e is not None:
+                                        binary_code_transform(build_op({((0, 1), (0, 0)): 1.0}), e)
+                                if prior == 'transform-twice':
+                                    binary_code_transform(build_op(prior_ops[1]), c)
+                                if prior == 'parity-list':
+                                    make_parity_list(c)
+                                    if sm is not None:
+                                        make_parity_list(sm)
+                                if prior == 'extractor':
+                                    for dpoly in list(c.decoder):
+                                        extractor(dpoly)
+                            return derive(kind, c, e, sm)
+                        d_hist = make(True)
+                        d_fresh = make(False)
+                        ja, jb = code_json(d_hist), code_json(d_fresh)
+                        if canon_code(ja) != canon_code(jb):
+                            stream.violate('a code derived after an earlier transform differs from the freshly built one',
+                                           case, {'with_history': ja, 'fresh': jb})
+                            continue
+                        extra = set(vars(d_hist)) - CODE_ATTRS
+                        # valid operators for the derived code: its own expression may not be in the grammar; use sizes
+                        nm = int(d_fresh.n_modes)
+                        fs = [{((nm - 1, 1), (0, 0)): 1.0, ((0, 1), (nm - 1, 0)): 0.5},
+                              {((min(2, nm - 1), 1),): 1.0}, {((nm - 1, 1), (nm - 1, 0)): -2.0, ((0, 1), (0, 0)): 1.0},
+                              {((1 % nm, 1), (0, 1), (nm - 1, 0), (0, 0)): 1j}]
+                        for f in fs:
+                            H = build_op(f)
+                            q1 = binary_code_transform(H, d_hist)
+                            q2 = binary_code_transform(H, d_fresh)
+                            stream.count('history:transforms-compared')
+                            if canon_qop(q1.terms) != canon_qop(q2.terms):
+                                stream.violate('binary_code_transform depends on what was done with the code object before '
+                                               '(differs from the transform with a freshly built equal code)', case,
+                                               {'fermion_op': [[list(map(list, t)), to_gq(c)] for t, c in f.items()],
+                                                'with_history': enc_op('qubit', q1.terms), 'fresh': enc_op('qubit', q2.terms)})
+                                break
+                        if code_json(d_hist) != ja:
+                            stream.violate('binary_code_transform changed the observable state of the code', case, {})
+                        de = {'concat': ['concat', ce, ee], 'iconcat': ['concat', ce, ee], 'add': ['add', ce, ee],
+                              'iadd': ['add', ce, ee], 'radd': ['add', ee, ce], 'deepcopy': ce, 'copy': ce, 'replace': se,
+                              'mul2': ['mulint', ce, (2, 'int'), 'r'], 'mul2np': ['mulint', ce, (2, 'int'), 'r'],
+                              'imul2': ['mulint', ce, (2, 'int'), 'r']}.get(kind)
+                        if kind == 'concat-concat':
+                            de = ['concat', ['concat', ce, ee], ['jw', sizes(ee)[1]]]
+                        if de is not None:
+                            dinf = info(of, de)
+                            enc = [[int(x) for x in r] for r in numpy.asarray(d_hist.encoder.toarray()).tolist()]
+                            for f in [rand_fermion_op(rng, dinf), fs[0]]:
+                                if not f:
+                                    continue
+                                q = binary_code_transform(build_op(f), d_hist)
+                                oracle.append((case, de, {'op': 'c09.spec_bct', 'enc': enc, 'dom': dinf.dom[:1024],
+                                                          'f': enc_op('fermion', f), 'q': enc_op('qubit', q.terms)}))
+                        extra |= set(vars(d_hist)) - CODE_ATTRS
+                        if extra:
+                            stream.violate('the code object carries attributes other than encoder / decoder / n_qubits / n_modes '
+                                           'after being used', case, {'attributes': sorted(extra)})
+                    except Exception as ex:  # noqa: BLE001
+                        stream.violate('history check raised %s' % errname(ex), case, {})
+    if oracle:
+        answers = ctx.driver.run([r for _, _, r in oracle])
+        for (case, de, r), ans in zip(oracle, answers):
+            if ans['verdict'] == 'leaves':
+                stream.count('oracle:inadmissible(operator leaves the domain)')
+                continue
+            stream.count('oracle:checked')
+            if ans['verdict'] != 'ok':
+                stream.violate('with a code derived from a used code the transformed operator acts differently on an encoded '
+                               'basis state', case, {'expr': de, 'v_mask': ans['v'], 'qubit_side': ans['lhs'],
+                                                     'fermion_side_encoded': ans['rhs']})
+    # (2) helpers leave the observable state alone; (3) polynomial helpers after in-place edits
+    for ce in (['bk', 4], ['checksum', 4, True], ['w2seg'], ['mulint', ['w1seg'], (2, 'int'), 'r']):
+        case = {'check': 'history', 'code': ce, 'what': 'observable state under helpers'}
+        stream.case(case)
+        stream.count('history:helpers')
+        try:
+            c = build_impl(of, ce)
+            before = (code_json(c), sorted(vars(c)))
+            make_parity_list(c)
+            for dpoly in list(c.decoder):
+                extractor(dpoly)
+                dpoly.enumerate_qubits()
+                if any(vars(dpoly).keys() - {'terms'}):
+                    stream.violate('a decoder polynomial carries attributes other than terms after extractor', case,
+                                   {'attributes': sorted(vars(dpoly))})
+            pl1 = make_parity_list(c)
+            h_mutate(pl1)
+            pl2 = make_parity_list(c)
+            fresh = make_parity_list(build_impl(of, ce))
+            if h_canon(pl2) != h_canon(fresh):
+                stream.violate('make_parity_list depends on an earlier call whose result was modified', case, {})
+            if (code_json(c), sorted(vars(c))) != before or set(vars(c)) != CODE_ATTRS:
+                stream.violate('make_parity_list / extractor changed the observable state of the code', case,
+                               {'attributes': sorted(vars(c))})
+        except Exception as ex:  # noqa: BLE001
+            stream.violate('helper history check raised %s' % errname(ex), case, {})
+    for ps in ('w0 w1 + w2', 'w1 + 1', 'w0 w1 w3 + w1 w2 + w0', 'w2', 'w0 + w1 + w2 + w3'):
+        for edit in ('iadd', 'imul', 'shift', 'iadd-const', 'imul-zero', 'terms-replace'):
+            case = {'check': 'history', 'poly': ps, 'edit': edit}
+            stream.case(case)
+            stream.count('history:poly-' + edit)
+            try:
+                def edited(p):
+                    if edit == 'iadd':
+                        p += BP('w1 w2 + w5')
+                    elif edit == 'imul':
+                        p *= BP('w0 + w4')
+                    elif edit == 'shift':
+                        p.shift(3)
+                    elif edit == 'iadd-const':
+                        p += 1
+                    elif edit == 'imul-zero':
+                        p = p * 2
+                        p += BP('w7')
+                    else:
+                        p.terms = [(1, 4), (2,)]
+                    return p
+                p = BP(ps)
+                extractor(p)
+                p.evaluate([1] * 12)
+                p.enumerate_qubits()
+                str(p)
+                p = edited(p)
+                q = edited(BP(ps))
+                bits = [rng.randint(0, 1) for _ in range(12)]
+                same = (h_canon(extractor(p)) == h_canon(extractor(q)) and p.evaluate(bits) == q.evaluate(bits)
+                        and sorted(p.enumerate_qubits()) == sorted(q.enumerate_qubits()) and str(p) == str(q)
+                        and h_canon(p * BP('w1')) == h_canon(q * BP('w1')) and h_canon(p + BP('w1')) == h_canon(q + BP('w1')))
+                if not same:
+                    stream.violate('a BinaryPolynomial edited in place answers differently from a freshly built equal one', case, {})
+                if set(vars(p)) != {'terms'}:
+                    stream.violate('a BinaryPolynomial carries attributes other than terms after being used', case,
+                                   {'attributes': sorted(vars(p))})
+            except Exception as ex:  # noqa: BLE001
+                stream.violate('polynomial history check raised %s' % errname(ex), case, {})
+    for term in ((0, 2), (1, 2, 3), (0, 1, 2, 3)):
+        case = {'check': 'history', 'dissolve': list(term)}
+        stream.case(case)
+        stream.count('history:dissolve')
+        a = dissolve(term)
+        h_mutate(a)
+        if h_canon(dissolve(term)) != h_canon(dissolve(tuple(numpy.int64(i) for i in term))):
+            stream.violate('dissolve depends on an earlier call', case, {})
+
+
 # ------------------------------------------------------------------ known findings
 
 def classify(v):
@@ -1511,6 +1768,14 @@ def replay(ctx, payload):
         return None
     inp = v.get('input', {})
     s = Stream('replay', 'replay')
+    if inp.get('check') == 'history':
+        check_history(ctx, s)
+        key = json.dumps(inp, sort_keys=True)
+        return not [x for x in s.violations if json.dumps(x.get('input'), sort_keys=True) == key and classify(x) is None]
+    if inp.get('check') in ('state', 'types'):
+        check_hardening(ctx, s)
+        key = json.dumps(inp, sort_keys=True)
+        return not [x for x in s.violations if json.dumps(x.get('input'), sort_keys=True) == key and classify(x) is None]
     if 'prog' in inp:
         prog = [_thaw_stmt(st) for st in inp['prog']]
         check_poly_programs(ctx, s, [prog], inp['nvars'])
@@ -1665,4 +1930,13 @@ def run(ctx):
                 'coefficients, variable indices >= 257')
     check_hardening(ctx, sh)
     streams.append(sh)
+    shist = Stream('history', 'state shared across calls: for base codes c (jw / bk / parity / checksum / interleaved / segment) and '
+                   'partners e: use c (nothing | binary_code_transform once / twice | make_parity_list | extractor on its decoder), '
+                   'derive d by c*e, c*=e, c+e, e+c, c+=e, 2*c, c*numpy 2, c*=2, deepcopy, copy, (c*e)*jw, replacing encoder / '
+                   'decoder, editing a decoder component in place; d must equal the independently built code and '
+                   'binary_code_transform(op, d) the transform with that fresh code, term for term, for four operators; vars(code) '
+                   'has exactly encoder / decoder / n_qubits / n_modes and is unchanged by the transform and its helpers; '
+                   'BinaryPolynomial helpers after in-place edits; distinct = distinct histories')
+    check_history(ctx, shist)
+    streams.append(shist)
     return streams
